@@ -32,6 +32,25 @@ CHECKS = {
     "C07": ("Two to four executions of the real strategy in one symbolic run with the map parameters / changed average "
             "/ second series as solver variables: affine commutation in values and time, locality, additivity, "
             "weights summing to one and non-negative.", "1 C07"),
+    "C11": ("process.truncate and the Weaver's truncate/slice operations on symbolic series and symbolic bounds (each "
+            "comparison of the neighbour search forks, so bounds inside/on/outside the data are separate paths) against "
+            "a declarative oracle, incl. the reference after a reshape; index forms enumerated against Python slicing.",
+            "1 C11"),
+    "C12": ("process.repeat / Weaver.repeat on symbolic series: tiling, spacing inside copies, junction step, monotonic, "
+            "identity, composition for all factor pairs within the bound.", "1 C12"),
+    "C13": ("'constant' through the real code on symbolic data and grids; 'linear' through a definition model of "
+            "numpy.interp; 'cubic'/'spline' through recording contract stubs (argument roles, s = 0); Weaver grid "
+            "construction and end-point check with a symbolic offset.", "1 C13"),
+    "C14": ("trend with an uninterpreted trend function, shift/scale with symbolic parameters, normalise with symbolic "
+            "target range: exact pointwise maps, order and relative spacing preserved.", "1 C14"),
+    "C15": ("noise_gauss / Weaver.noise with numpy.random.normal as a recording stub of fresh reals: one draw, zero "
+            "mean, signal shape, purely additive, scale^2*SNR == mean(y^2) for linear/dB/array/symbolic snr, std "
+            "verbatim. The statistical clause of the property is outside this technique and not claimed.", "1 C15"),
+    "C16": ("What traffic-weaver hands to FITPACK and does with the result (arguments, default s = len*var, s = 0 for "
+            "to_function, evaluation at the existing x); statements about the spline itself hold under the stated "
+            "FITPACK contract (assumption).", "1 C16"),
+    "C17": ("All array helpers, the interval view and block averaging on symbolic arrays, one path per shape, for the "
+            "property's whole size range in the thorough tier.", "1 C17"),
 }
 
 NA_REASON = "harness not built yet (work in progress, see DESIGN.md section 1)"
